@@ -88,6 +88,8 @@ pub enum Step {
 	Debug(usize),
 	/// try-acquire the target while the thread's next raw try operation panics (kills that lock)
 	FaultyTry { target: usize, write: bool },
+	/// `RawLock::poison` on the target (safe public API): its locks refuse every later acquisition
+	Kill(usize),
 }
 
 #[derive(Clone, Debug, Serialize, Deserialize)]
@@ -114,6 +116,7 @@ impl Program {
 					Step::ClearPoison(t) => s += &format!(" {}.clear_poison", self.specs[*t].describe()),
 					Step::Debug(t) => s += &format!(" {}.debug", self.specs[*t].describe()),
 					Step::FaultyTry { target, write } => s += &format!(" {}.{}!raw-fault", self.specs[*target].describe(), Flavour::Try.api(*write)),
+					Step::Kill(t) => s += &format!(" {}.poison()", self.specs[*t].describe()),
 				}
 				s += ";";
 			}
@@ -512,10 +515,23 @@ pub fn run_thread(tid: usize, steps: &[Step], targets: &[Target<'_>]) {
 				let _ = unfired;
 			}
 			Step::Debug(t) => {
-				rt::begin_call(CallKind::NonAcquiring, false, what(&targets[*t], "Debug"));
+				let w = what(&targets[*t], "Debug");
+				let mut before = rt::held_now();
+				before.sort_by_key(|h| (h.0, h.1 as u8));
+				rt::begin_call(CallKind::NonAcquiring, false, w.clone());
 				let s = targets[*t].coll.debug();
 				rt::end_call();
 				rt::observe(s.len() as u64);
+				let mut after = rt::held_now();
+				after.sort_by_key(|h| (h.0, h.1 as u8));
+				if after != before {
+					rt::violation("C17", format!("nonacq-disturbs|{}", rt::what_key(&w)), format!("the caller held {:?} before `{}` and holds {:?} after it", before, w, after));
+				}
+			}
+			Step::Kill(t) => {
+				rt::yield_point(3);
+				rt::explicit_kill(&targets[*t].leaves);
+				targets[*t].coll.kill();
 			}
 		}
 	}
